@@ -939,6 +939,8 @@ def _run_case(env: Env, case: dict, kinds: list[str], reqs: Optional[list], pend
         ctx.count('I:' + t)
     for t in case.get('qdims', []):
         ctx.count('Q:' + t)                    # identity field kind, where the prefix is re-bound, …
+    for t in case.get('rdims', []):
+        ctx.count('root:' + t)
     for t in case.get('nsv', []):
         ctx.count('redeclared:' + t)           # meaning-preserving nested namespace declaration
     if case.get('cm'):
@@ -1503,7 +1505,20 @@ def gen_cases(ctx: Ctx, n: int) -> list[dict]:
             xml, added = GQ.redeclare(ctx.rng, c['xml'], ctx.rng.choice([1, 2, 3]))
             if added:
                 nscases.append(dict(c, xml=xml, nsv=added, lite=True))
-    return cases + extra + vcases + nodef + wcases + icases + cmcases + qcases + nscases
+    # what the ROOT element is, for every family: declared global / undeclared with xsi:type (complex, simple, builtin,
+    # abstract, unknown type; valid and invalid content) / undeclared / local-only name / other or no namespace
+    rcases = []
+    k = 0
+    for fam in 'TNVWQI':
+        for c in GW.root_cases(fam):
+            k += 1
+            c['v'] = '1.1' if (fam == 'I' or k % 2) else '1.0'
+            if ctx.quick() and ctx.rng.random() < 0.85:
+                c['lite'] = True
+            rcases.append(c)
+            if not ctx.quick() and fam != 'I':
+                rcases.append(dict(c, v='1.0' if c['v'] == '1.1' else '1.1'))
+    return cases + extra + vcases + nodef + wcases + icases + cmcases + qcases + nscases + rcases
 
 
 COMMENT_NODES = ['<!-- c -->', '<?pi x?>', '<!---->', '<!-- a --><?p?>']
